@@ -27,6 +27,10 @@ def xor32 (a b : Int) : Int := (BitVec.ofInt 32 a ^^^ BitVec.ofInt 32 b).toInt
 /-- `a & b` on `uint32_t`. -/
 def andU32 (a b : Int) : Int := ((BitVec.ofInt 32 a &&& BitVec.ofInt 32 b).toNat : Int)
 def orU32 (a b : Int) : Int := ((BitVec.ofInt 32 a ||| BitVec.ofInt 32 b).toNat : Int)
+def andU64 (a b : Int) : Int := ((BitVec.ofInt 64 a &&& BitVec.ofInt 64 b).toNat : Int)
+def orU64 (a b : Int) : Int := ((BitVec.ofInt 64 a ||| BitVec.ofInt 64 b).toNat : Int)
+def and64 (a b : Int) : Int := (BitVec.ofInt 64 a &&& BitVec.ofInt 64 b).toInt
+def or64 (a b : Int) : Int := (BitVec.ofInt 64 a ||| BitVec.ofInt 64 b).toInt
 /-- `a << k` on C `int`, result wrapped (UB in C when it overflows; models gcc/clang behaviour). -/
 def shl32 (a : Int) (k : Int) : Int := wrapS 32 (a * 2 ^ k.toNat)
 def shlU32 (a : Int) (k : Int) : Int := wrapU 32 (a * 2 ^ k.toNat)
@@ -35,6 +39,14 @@ def shr (a : Int) (k : Int) : Int := a / 2 ^ k.toNat   -- Int `/` is floor for p
 /-- C division truncates toward zero. -/
 def cdiv (a b : Int) : Int := Int.tdiv a b
 def cmod (a b : Int) : Int := Int.tmod a b
+
+/-- `for (i = 0; i < n; ++i) dst[i] = src[i];` on in-bounds indices (out-of-bounds ones are tracked separately) -/
+def copyPrefix (n : Int) (src dst : List Int) : List Int :=
+  (List.range n.toNat).foldl (fun d i => d.set i (src.getD i 0)) dst
+
+/-- value of an n-bit unsigned / signed object whose bytes are all `b` (memset fill) -/
+def fillU (n : Nat) (b : Int) : Int := (List.range (n / 8)).foldl (fun acc _ => acc * 256 + (b % 256)) 0
+def fillS (n : Nat) (b : Int) : Int := wrapS n (fillU n b)
 
 def clip3 (lo hi x : Int) : Int := if x < lo then lo else if x > hi then hi else x
 def cmin (a b : Int) : Int := if a < b then a else b
